@@ -425,10 +425,11 @@ def _dur_fields_valid(f):
 def _r_duration_record_unvalidated(t, impl, expected):
     """A Duration assembled from the public records without validation (`Duration::from(TimeDuration)`,
     `Duration::from(DateDuration)`, `Duration::from_day_and_time`, whose fields are public) that is NOT a valid
-    duration: the i128 normalisation of its time part overflows or trips its debug assertion."""
+    duration: the i128 normalisation of its time part overflows or trips its debug assertion, or the 64-bit day
+    arithmetic of the duration code overflows (any panic site inside the duration module, for such a record only)."""
     if t[0] != "sw_durraw" or len(t) != 11:
         return False
-    if not impl.startswith("panic@repo/src/builtins/core/duration/normalized.rs:"):
+    if not impl.startswith("panic@repo/src/builtins/core/duration"):   # duration.rs and duration/*.rs
         return False
     try:
         f = [float(x) for x in t[1:]]
@@ -439,3 +440,28 @@ def _r_duration_record_unvalidated(t, impl, expected):
     time_only = z[:4] + f[4:]
     day_time = z[:3] + f[3:]
     return not all(_dur_fields_valid(x) for x in (date_only, time_only, day_time))
+
+
+def _iso_date_in_limits(y, m, d):
+    if not (1 <= m <= 12):
+        return False
+    leap = y % 4 == 0 and (y % 100 != 0 or y % 400 == 0)
+    dim = [31, 29 if leap else 28, 31, 30, 31, 30, 31, 31, 30, 31, 30, 31][m - 1]
+    if not (1 <= d <= dim):
+        return False
+    return (-271821, 4, 19) <= (y, m, d) <= (275760, 9, 13)
+
+
+@region("iso-date-record-unvalidated")
+def _r_iso_date_record_unvalidated(t, impl, expected):
+    """An `IsoDate` whose public fields were written directly (through `PlainMonthDay::iso`, or handed to the public
+    `Calendar` getters / `date_add` / `date_until`, which take a `&IsoDate`) and that is NOT a valid ISO date inside
+    Temporal's range: the conversion to the calendrical library's date unwraps (`IsoDate::to_icu4x`), or the library
+    itself overflows on the year."""
+    if t[0] not in ("sw_mdraw", "sw_calraw") or len(t) != 5 or not impl.startswith("panic@"):
+        return False
+    try:
+        y, m, d = int(t[2]), int(t[3]), int(t[4])
+    except ValueError:
+        return False
+    return not _iso_date_in_limits(y, m, d)
